@@ -21,14 +21,20 @@
                 b18179b); for the earlier one-list code it is false — `no_lost_wake_false`
                 keeps the machine-checked witness (a trace of that implementation) and
                 `no_lost_wake_partial` what did hold (homogeneous waiter list).
-    Chan        all clauses proved for the three kinds: exactly-once and per-sender FIFO,
-                capacity / no-overwrite for the bounded ring, single wake-up, and
-                `receiver_resumed_*` (publish-then-raise vs clear-then-recheck).
+    Chan        all clauses proved for the three kinds, for channels created with a ready_signal
+                AND with a NULL signal (spinning), over histories that mix blocking receive and
+                `*_try_receive`: exactly-once and per-sender FIFO, capacity / no-overwrite for
+                the bounded ring, single wake-up, `receiver_resumed_*` (publish-then-raise vs
+                clear-then-recheck); spinning channels never sleep and their receive loop takes
+                an available message in its next pass (`spin_never_sleeps`, `receive_takes_*`);
+                a try_receive reports empty only if the channel was empty at an instant of the
+                call or the send of the message next in line was in flight (`try_empty_*`).
 -/
 import LibfiberVerif.Proof.Signal
 import LibfiberVerif.Proof.MultiChanTwoStep
 import LibfiberVerif.Proof.ChanWakeStep
 import LibfiberVerif.Proof.ChanBWakeStep
+import LibfiberVerif.Proof.ChanTry
 
 namespace LibfiberVerif.Props.C11
 
@@ -346,33 +352,41 @@ end MultiChan
 /-! ################################################################################
     ## bounded / unbounded / sp channel  (include/fiber_channel.h, harness/chan.c)
 
-    One model, `Chan.sys kind cap`, for the three single-receiver channels; the signal
-    protocol of the `Signal` section is embedded unchanged.  Theorems with suffix `_queue`
-    are for the unbounded (MPSC) and sp (SPSC) channels, `_bounded` for the bounded one.
+    One model, `Chan.sysM spin kind cap`, for the three single-receiver channels in both
+    creation modes: `spin = false` — with a ready_signal (`Chan.sys kind cap` is this case,
+    definitionally) — and `spin = true` — created with a NULL signal ("this channel will
+    spin").  The signal protocol of the `Signal` section is embedded unchanged.  The receiver
+    may mix blocking receives (`callRecv`) and `*_try_receive` (`callTry`) in any order; every
+    theorem quantifies over all such histories.  Theorems with suffix `_queue` are for the
+    unbounded (MPSC) and sp (SPSC) channels, `_bounded` for the bounded one.
     ################################################################################ -/
 namespace Chan
 open LibfiberVerif LibfiberVerif.Chan
 
+/-- `sys` is the signal-mode instance of `sysM`: every theorem below, stated for `sysM spin`,
+    holds verbatim for `sys k cap` -/
+theorem sys_eq_sysM (k : Kind) (cap : Nat) : sys k cap = sysM false k cap := rfl
+
 /-- the ready_signal of a channel obeys the signal protocol: every sleep of the receiver is
     ended by at most one wake-up, issued by one sender -/
-theorem single_wake (k : Kind) (cap : Nat) (es : List Ev) (s : St) (f : Nat)
-    (h : (sys k cap).run es = some s) :
+theorem single_wake (spin : Bool) (k : Kind) (cap : Nat) (es : List Ev) (s : St) (f : Nat)
+    (h : (sysM spin k cap).run es = some s) :
     s.p.wakes f ≤ s.p.parks f ∧ s.p.parks f ≤ s.p.wakes f + 1 ∧
     (∀ g g', (s.p.pc g).targets f → (s.p.pc g').targets f → g = g') :=
   Signal.single_wake_of_inv (pinv_of_run h) f
 
 /-- only the channel's single receiver is ever in the signal word (client contract) -/
-theorem word_is_receiver (k : Kind) (cap : Nat) (es : List Ev) (s : St) (f : Nat)
-    (h : (sys k cap).run es = some s) (hw : s.p.word = .fiber f) :
+theorem word_is_receiver (spin : Bool) (k : Kind) (cap : Nat) (es : List Ev) (s : St) (f : Nat)
+    (h : (sysM spin k cap).run es = some s) (hw : s.p.word = .fiber f) :
     (s.p.pc f).sleepy ∧ s.p.waiterId = some f :=
   let hp := pinv_of_run h
   ⟨(hp.word_sleepy f hw).1, hp.word_id f hw⟩
 
-/-- `exactly_once` (unbounded / sp): what has been received is exactly the first `hd` messages
-    in the order the senders swapped the tail — nothing lost, duplicated, invented or
-    re-ordered; messages are distinct and non-NULL. -/
-theorem exactly_once_queue (k : Kind) (cap : Nat) (hk : k ≠ .bounded) (es : List Ev) (s : St)
-    (h : (sys k cap).run es = some s) :
+/-- `exactly_once` (unbounded / sp): what has been received — by blocking receives and
+    try_receives alike — is exactly the first `hd` messages in the order the senders swapped the
+    tail: nothing lost, duplicated, invented or re-ordered; messages are distinct and non-NULL. -/
+theorem exactly_once_queue (spin : Bool) (k : Kind) (cap : Nat) (hk : k ≠ .bounded) (es : List Ev) (s : St)
+    (h : (sysM spin k cap).run es = some s) :
     s.recvd = (s.sent.map Prod.snd).take s.hd ∧ s.recvd <+: s.sent.map Prod.snd ∧
     s.hd ≤ s.sent.length ∧ (s.sent.map Prod.snd).Nodup ∧ (∀ p, p ∈ s.sent → p.2 ≠ 0) := by
   have hq := qinv_of_run hk h
@@ -380,16 +394,16 @@ theorem exactly_once_queue (k : Kind) (cap : Nat) (hk : k ≠ .bounded) (es : Li
 
 /-- `per_sender_fifo` (unbounded / sp): the messages of fiber f are linearised — and therefore,
     by `exactly_once_queue`, received — in the order of f's calls to send. -/
-theorem per_sender_fifo_queue (k : Kind) (cap : Nat) (hk : k ≠ .bounded) (es : List Ev) (s : St) (f : Nat)
-    (h : (sys k cap).run es = some s) :
+theorem per_sender_fifo_queue (spin : Bool) (k : Kind) (cap : Nat) (hk : k ≠ .bounded) (es : List Ev) (s : St)
+    (f : Nat) (h : (sysM spin k cap).run es = some s) :
     sentBy s f <+: s.calls f ∧ sentBy s f ++ (s.pc f).pending = s.calls f := by
   have := (qinv_of_run hk h).calls_eq f
   exact ⟨⟨_, this⟩, this⟩
 
 /-- what the receiver reads out of a node IS the message with the next sequence number: the
     `data` word of every node still to be received holds its message -/
-theorem data_intact_queue (k : Kind) (cap : Nat) (hk : k ≠ .bounded) (es : List Ev) (s : St) (i : Nat)
-    (h : (sys k cap).run es = some s) (h1 : s.hd ≤ i) (h2 : i < s.sent.length) :
+theorem data_intact_queue (spin : Bool) (k : Kind) (cap : Nat) (hk : k ≠ .bounded) (es : List Ev) (s : St)
+    (i : Nat) (h : (sysM spin k cap).run es = some s) (h1 : s.hd ≤ i) (h2 : i < s.sent.length) :
     s.ndata (qval s i + 1) = qval s i :=
   (qinv_of_run hk h).data i h1 h2
 
@@ -397,24 +411,36 @@ theorem data_intact_queue (k : Kind) (cap : Nat) (hk : k ≠ .bounded) (es : Lis
     queue while no sender is between publishing and its exchange of RAISED ⇒ if the receiver
     has decided to sleep its CAS will fail (word = RAISED: the raise is remembered), and if it
     is asleep a sender has taken it out of the word and is on its way to wake it (the raise
-    was seen). -/
-theorem receiver_resumed_queue (k : Kind) (cap : Nat) (hk : k ≠ .bounded) (es : List Ev) (s : St) (w : Nat)
-    (h : (sys k cap).run es = some s) (ha : avail s) (hq : ∀ g, ¬ inFlight s g) :
+    was seen).  (On a spinning channel nobody ever decides to sleep or is asleep:
+    `spin_never_sleeps`; there the statement holds because its premises are unreachable.) -/
+theorem receiver_resumed_queue (spin : Bool) (k : Kind) (cap : Nat) (hk : k ≠ .bounded) (es : List Ev) (s : St)
+    (w : Nat) (h : (sysM spin k cap).run es = some s) (ha : avail s) (hq : ∀ g, ¬ inFlight s g) :
     (committed s w → s.p.word = .raised) ∧
-    (asleep s w → ∃ g, s.p.waker w = some g ∧ (s.p.pc g).targets w) :=
-  resumed_of_inv (winv_of_run hk h) ha hq w
+    (asleep s w → ∃ g, s.p.waker w = some g ∧ (s.p.pc g).targets w) := by
+  cases spin with
+  | false => exact resumed_of_inv (winv_of_run hk h) ha hq w
+  | true =>
+    obtain ⟨a, b⟩ := LibfiberVerif.Chan.spin_never_sleeps (spininv_of_run h) w
+    exact ⟨fun hc => absurd hc a, fun hs => absurd hs b⟩
 
 /-- … hence: with every other fiber outside any operation and a message available, the
     receiver is NOT asleep (a receiver blocked on the channel has been resumed), and if it has
     just decided to sleep the word is RAISED. -/
-theorem receiver_not_stranded_queue (k : Kind) (cap : Nat) (hk : k ≠ .bounded) (es : List Ev) (s : St)
-    (w : Nat) (h : (sys k cap).run es = some s) (ha : avail s) (hidle : ∀ g, g ≠ w → s.pc g = .idle) :
-    ¬ asleep s w ∧ (committed s w → s.p.word = .raised) :=
-  not_stranded_of_inv (winv_of_run hk h) ha w hidle
+theorem receiver_not_stranded_queue (spin : Bool) (k : Kind) (cap : Nat) (hk : k ≠ .bounded) (es : List Ev)
+    (s : St) (w : Nat) (h : (sysM spin k cap).run es = some s) (ha : avail s)
+    (hidle : ∀ g, g ≠ w → s.pc g = .idle) :
+    ¬ asleep s w ∧ (committed s w → s.p.word = .raised) := by
+  cases spin with
+  | false => exact not_stranded_of_inv (winv_of_run hk h) ha w hidle
+  | true =>
+    obtain ⟨a, b⟩ := LibfiberVerif.Chan.spin_never_sleeps (spininv_of_run h) w
+    exact ⟨b, fun hc => absurd hc a⟩
 
-/-- `exactly_once` (bounded): what has been received is exactly the first `low` messages in the
-    order the senders claimed their slots (CAS on `high`). -/
-theorem exactly_once_bounded (cap : Nat) (es : List Ev) (s : St) (h : (sys .bounded cap).run es = some s) :
+/-- `exactly_once` (bounded): what has been received — by blocking receives and try_receives
+    alike — is exactly the first `low` messages in the order the senders claimed their slots
+    (CAS on `high`). -/
+theorem exactly_once_bounded (spin : Bool) (cap : Nat) (es : List Ev) (s : St)
+    (h : (sysM spin .bounded cap).run es = some s) :
     s.recvd = (s.sent.map Prod.snd).take s.low ∧ s.recvd <+: s.sent.map Prod.snd ∧
     s.sent.length = s.high ∧ s.low ≤ s.high ∧ (∀ p, p ∈ s.sent → p.2 ≠ 0) := by
   have hb := binv_of_run h
@@ -422,8 +448,8 @@ theorem exactly_once_bounded (cap : Nat) (es : List Ev) (s : St) (h : (sys .boun
 
 /-- `per_sender_fifo` (bounded): a sender's messages are claimed — hence received — in the
     order of its calls to send. -/
-theorem per_sender_fifo_bounded (cap : Nat) (es : List Ev) (s : St) (f : Nat)
-    (h : (sys .bounded cap).run es = some s) :
+theorem per_sender_fifo_bounded (spin : Bool) (cap : Nat) (es : List Ev) (s : St) (f : Nat)
+    (h : (sysM spin .bounded cap).run es = some s) :
     sentBy s f <+: s.calls f ∧ sentBy s f ++ (s.pc f).pending = s.calls f := by
   have := (binv_of_run h).calls_eq f
   exact ⟨⟨_, this⟩, this⟩
@@ -431,8 +457,10 @@ theorem per_sender_fifo_bounded (cap : Nat) (es : List Ev) (s : St) (f : Nat)
 /-- `bounded_no_overwrite`: the channel never holds more than `size` messages (claimed and not
     yet consumed); a sender writes only into a slot that holds NULL — the slot of the sequence
     number it claimed, which no other fiber writes —; and every message that is claimed and
-    not yet consumed is either in its slot or still to be written by its (unique) claimer. -/
-theorem bounded_no_overwrite (cap : Nat) (es : List Ev) (s : St) (h : (sys .bounded cap).run es = some s) :
+    not yet consumed is either in its slot or still to be written by its (unique) claimer.
+    The consumer (`rCleared`) may be a blocking receive or a try_receive. -/
+theorem bounded_no_overwrite (spin : Bool) (cap : Nat) (es : List Ev) (s : St)
+    (h : (sysM spin .bounded cap).run es = some s) :
     s.high - s.low ≤ s.cap ∧
     (∀ f v i, s.pc f = .sClaimed v i → s.low ≤ i ∧ i < s.high ∧ qown s i = f ∧ s.buf (i % s.cap) = 0) ∧
     (∀ i, s.low ≤ i → i < s.high → (∀ f m, s.pc f ≠ .rCleared i m) →
@@ -445,8 +473,8 @@ theorem bounded_no_overwrite (cap : Nat) (es : List Ev) (s : St) (h : (sys .boun
   · exact mod_ne_of_lt h2 (by have := hb.lowhigh; omega)
 
 /-- the write itself: at the step in which a sender stores its message the slot holds NULL -/
-theorem send_writes_null_slot (cap : Nat) (es : List Ev) (s s' : St) (f i x : Nat)
-    (h : (sys .bounded cap).run es = some s) (v hh : Nat) (hpc : s.pc f = .sClaimed v hh)
+theorem send_writes_null_slot (spin : Bool) (cap : Nat) (es : List Ev) (s s' : St) (f i x : Nat)
+    (h : (sysM spin .bounded cap).run es = some s) (v hh : Nat) (hpc : s.pc f = .sClaimed v hh)
     (hs : step s (.wBuf f i x) = some s') : s.buf i = 0 ∧ x = v := by
   have hb := binv_of_run h
   obtain ⟨hk, _⟩ := kind_of_run h
@@ -463,34 +491,150 @@ theorem send_writes_null_slot (cap : Nat) (es : List Ev) (s s' : St) (f i x : Na
     sender is between claiming a slot and its exchange of RAISED ⇒ the receiver's next CAS
     fails (word = RAISED) if it has decided to sleep, and if it is asleep a sender has taken
     it out of the word and is on its way to wake it. -/
-theorem receiver_resumed_bounded (cap : Nat) (hcap : 0 < cap) (es : List Ev) (s : St) (w : Nat)
-    (h : (sys .bounded cap).run es = some s) (ha : bavail s) (hq : ∀ g, ¬ binFlight s g) :
+theorem receiver_resumed_bounded (spin : Bool) (cap : Nat) (hcap : 0 < cap) (es : List Ev) (s : St) (w : Nat)
+    (h : (sysM spin .bounded cap).run es = some s) (ha : bavail s) (hq : ∀ g, ¬ binFlight s g) :
     (committed s w → s.p.word = .raised) ∧
-    (asleep s w → ∃ g, s.p.waker w = some g ∧ (s.p.pc g).targets w) :=
-  bresumed_of_inv (bwinv_of_run hcap h) ha hq w
+    (asleep s w → ∃ g, s.p.waker w = some g ∧ (s.p.pc g).targets w) := by
+  cases spin with
+  | false => exact bresumed_of_inv (bwinv_of_run hcap h) ha hq w
+  | true =>
+    obtain ⟨a, b⟩ := LibfiberVerif.Chan.spin_never_sleeps (spininv_of_run h) w
+    exact ⟨fun hc => absurd hc a, fun hs => absurd hs b⟩
 
-theorem receiver_not_stranded_bounded (cap : Nat) (hcap : 0 < cap) (es : List Ev) (s : St) (w : Nat)
-    (h : (sys .bounded cap).run es = some s) (ha : bavail s) (hidle : ∀ g, g ≠ w → s.pc g = .idle) :
-    ¬ asleep s w ∧ (committed s w → s.p.word = .raised) :=
-  bnot_stranded_of_inv (bwinv_of_run hcap h) ha w hidle
+theorem receiver_not_stranded_bounded (spin : Bool) (cap : Nat) (hcap : 0 < cap) (es : List Ev) (s : St)
+    (w : Nat) (h : (sysM spin .bounded cap).run es = some s) (ha : bavail s)
+    (hidle : ∀ g, g ≠ w → s.pc g = .idle) :
+    ¬ asleep s w ∧ (committed s w → s.p.word = .raised) := by
+  cases spin with
+  | false => exact bnot_stranded_of_inv (bwinv_of_run hcap h) ha w hidle
+  | true =>
+    obtain ⟨a, b⟩ := LibfiberVerif.Chan.spin_never_sleeps (spininv_of_run h) w
+    exact ⟨b, fun hc => absurd hc a⟩
 
-/-- `exactly_once` for all three kinds: the received messages are a prefix of the messages in
-    linearisation order (slot claim / tail swap): each message is received at most once, only
-    messages that were sent are received, and never out of that order. -/
-theorem exactly_once (k : Kind) (cap : Nat) (es : List Ev) (s : St) (h : (sys k cap).run es = some s) :
-    s.recvd <+: s.sent.map Prod.snd := by
+/-- `exactly_once` for all three kinds, both creation modes, any mix of receive and
+    try_receive: the received messages are a prefix of the messages in linearisation order
+    (slot claim / tail swap): each message is received at most once, only messages that were
+    sent are received, and never out of that order. -/
+theorem exactly_once (spin : Bool) (k : Kind) (cap : Nat) (es : List Ev) (s : St)
+    (h : (sysM spin k cap).run es = some s) : s.recvd <+: s.sent.map Prod.snd := by
   cases k with
-  | bounded => exact (exactly_once_bounded cap es s h).2.1
-  | unbounded => exact (exactly_once_queue .unbounded cap (by simp) es s h).2.1
-  | sp => exact (exactly_once_queue .sp cap (by simp) es s h).2.1
+  | bounded => exact (exactly_once_bounded spin cap es s h).2.1
+  | unbounded => exact (exactly_once_queue spin .unbounded cap (by simp) es s h).2.1
+  | sp => exact (exactly_once_queue spin .sp cap (by simp) es s h).2.1
 
-/-- `per_sender_fifo` for all three kinds -/
-theorem per_sender_fifo (k : Kind) (cap : Nat) (es : List Ev) (s : St) (f : Nat)
-    (h : (sys k cap).run es = some s) : sentBy s f <+: s.calls f := by
+/-- `per_sender_fifo` for all three kinds, both creation modes -/
+theorem per_sender_fifo (spin : Bool) (k : Kind) (cap : Nat) (es : List Ev) (s : St) (f : Nat)
+    (h : (sysM spin k cap).run es = some s) : sentBy s f <+: s.calls f := by
   cases k with
-  | bounded => exact (per_sender_fifo_bounded cap es s f h).1
-  | unbounded => exact (per_sender_fifo_queue .unbounded cap (by simp) es s f h).1
-  | sp => exact (per_sender_fifo_queue .sp cap (by simp) es s f h).1
+  | bounded => exact (per_sender_fifo_bounded spin cap es s f h).1
+  | unbounded => exact (per_sender_fifo_queue spin .unbounded cap (by simp) es s f h).1
+  | sp => exact (per_sender_fifo_queue spin .sp cap (by simp) es s f h).1
+
+/-! ### channels created with a NULL ready_signal ("this channel will spin") -/
+
+/-- on a spinning channel no fiber ever touches a signal: the embedded protocol is still in its
+    initial state (nobody ever parked, was woken, or is in the word), and no fiber is ever on
+    its way to sleep or asleep — "a receiver blocked on an empty channel" does not sleep, it
+    is somewhere in its receive loop -/
+theorem spin_never_sleeps (k : Kind) (cap : Nat) (es : List Ev) (s : St)
+    (h : (sysM true k cap).run es = some s) :
+    s.p = Signal.pinit ∧ (∀ f, (s.pc f).usesSignal = false) ∧ ∀ w, ¬ committed s w ∧ ¬ asleep s w :=
+  let hi := spininv_of_run h
+  ⟨hi.proto, hi.nosig, LibfiberVerif.Chan.spin_never_sleeps hi⟩
+
+/-- … and that loop takes a message as soon as one is available (bounded; either creation
+    mode, blocking receive or try_receive): with the receiver at the top of its loop and the
+    message with sequence number `low` in its slot, the next pass — these six events, all
+    accepted — delivers exactly that message.  Together with `spin_never_sleeps` this is "a
+    receiver blocked on an empty channel is always resumed by a later send" for spinning
+    channels: a pass that finds nothing ends at the top of the loop again (`emptyPc`), the
+    first pass after the send's write finds the message. -/
+theorem receive_takes_bounded (spin : Bool) (cap : Nat) (hcap : 0 < cap) (es : List Ev) (s : St) (f : Nat)
+    (h : (sysM spin .bounded cap).run es = some s) (hpc : s.pc f = .rTop) (ha : bavail s) :
+    ∃ s', (sysM spin .bounded cap).run (es ++
+        [.ldHigh f s.high, .ldLow f s.low, .rBuf f (s.low % s.cap) (s.buf (s.low % s.cap)),
+         .wBuf f (s.low % s.cap) 0, .stLow f (s.low + 1), .retRecv f (s.buf (s.low % s.cap))]) = some s' ∧
+      s'.pc f = .idle ∧ s'.recvd = s.recvd ++ [s.buf (s.low % s.cap)] ∧ s'.low = s.low + 1 := by
+  obtain ⟨hk, hc⟩ := kind_of_run h
+  obtain ⟨s', h1, h2⟩ := LibfiberVerif.Chan.receive_takes_bounded hk (binv_of_run h) (by rw [hc]; exact hcap) f hpc ha
+  refine ⟨s', ?_, h2⟩
+  have e : sysM s.spin s.kind s.cap = sysM spin .bounded cap := by rw [spin_of_run h, hk, hc]
+  rw [e] at h1
+  simp only [Sys.run] at h ⊢
+  simp only [Sys.runFrom_append, h, Option.bind_some]
+  exact h1
+
+/-- the same for the unbounded / sp channels: a message linked at the head ⇒ the next pass of
+    the loop pops that node and returns its message -/
+theorem receive_takes_queue (spin : Bool) (k : Kind) (cap : Nat) (hk : k ≠ .bounded) (es : List Ev) (s : St)
+    (f : Nat) (h : (sysM spin k cap).run es = some s) (hpc : s.pc f = .rTop) (ha : avail s) :
+    ∃ s', (sysM spin k cap).run (es ++
+        [.rHead f s.headNode, .rNext f s.headNode (headNext s), .wHead f (headNext s),
+         .rData f (headNext s) (s.ndata (headNext s)), .wData f s.headNode (s.ndata (headNext s)),
+         .rData f s.headNode (s.ndata (headNext s)), .retRecv f (s.ndata (headNext s))]) = some s' ∧
+      s'.pc f = .idle ∧ s'.recvd = s.recvd ++ [s.ndata (headNext s)] ∧ s'.hd = s.hd + 1 := by
+  obtain ⟨hks, hc⟩ := kind_of_run h
+  obtain ⟨s', h1, h2⟩ := LibfiberVerif.Chan.receive_takes_queue (by rw [hks]; exact hk) f hpc ha
+  refine ⟨s', ?_, h2⟩
+  have e : sysM s.spin s.kind s.cap = sysM spin k cap := by rw [spin_of_run h, hks, hc]
+  rw [e] at h1
+  simp only [Sys.run] at h ⊢
+  simp only [Sys.runFrom_append, h, Option.bind_some]
+  exact h1
+
+/-! ### `*_try_receive` -/
+
+/-- a try_receive never waits: while the operation in progress is a try_receive no fiber is on
+    its way into fiber_signal_wait (and there is one receiver: client contract, ghost-checked) -/
+theorem try_never_waits (spin : Bool) (k : Kind) (cap : Nat) (es : List Ev) (s : St)
+    (h : (sysM spin k cap).run es = some s) (ht : s.tryMode = true) (f : Nat) :
+    s.pc f ≠ .rEmpty ∧ s.pc f ≠ .rWaiting :=
+  (tinv_of_run h).nowait ht f
+
+/-- `try_empty_bounded` — the STRONGEST true form of "try_receive reports empty only if the
+    channel was empty at some instant of the call or a send was in flight" (bounded channel):
+    if a try_receive of fiber f is about to return "empty" (`tEmpty`), then at some instant s1
+    since the call began (`SinceCall`: no receive operation has started after s1, so s1 lies
+    inside THIS call) either the channel was EMPTY — every message claimed so far had been
+    received — or the send of THE MESSAGE NEXT IN LINE was in flight: its sender had claimed
+    sequence number `low` by the CAS on `high` and not yet written the slot.  It cannot be
+    strengthened to "no completed send was unreceived": `try_empty_despite_completed_send`. -/
+theorem try_empty_bounded (spin : Bool) (cap : Nat) (es : List Ev) (s : St) (f : Nat)
+    (h : (sysM spin .bounded cap).run es = some s) (hf : s.pc f = .tEmpty) :
+    SinceCall (sysM spin .bounded cap) es
+      (fun s1 => s1.sent.length = s1.recvd.length ∨ (s1.low < s1.high ∧ ∃ g v, s1.pc g = .sClaimed v s1.low)) :=
+  (try_hist_bounded spin cap es s h).2 f hf
+
+/-- `try_empty_queue` — the same for the unbounded / sp channels: EMPTY — every message swapped
+    into the tail so far had been received — or the send of the message next in line was in
+    flight: its sender had swapped the tail and not yet written `prev->next`. -/
+theorem try_empty_queue (spin : Bool) (k : Kind) (hk : k ≠ .bounded) (cap : Nat) (es : List Ev) (s : St)
+    (f : Nat) (h : (sysM spin k cap).run es = some s) (hf : s.pc f = .tEmpty) :
+    SinceCall (sysM spin k cap) es
+      (fun s1 => s1.sent.length = s1.recvd.length ∨
+        (s1.hd < s1.sent.length ∧ ∃ g v prev, s1.pc g = .qSwapped v prev s1.hd)) :=
+  try_hist_queue spin k hk cap es s h f hf
+
+/-- state form (bounded), at the deciding read of ANY receive operation that finds nothing —
+    the try_receive that will report empty, the blocking receive that will wait / loop: the
+    receiver's load of `high` in this operation saw `high = low` (`emptySeen`, a ghost that is
+    reset by every receive call and set only by that load: `emptySeen_set`), or the slot of
+    the message next in line is NULL because its claimer has not written it yet -/
+theorem empty_at_read_bounded (spin : Bool) (cap : Nat) (es : List Ev) (s s' : St) (f i x hh l : Nat)
+    (h : (sysM spin .bounded cap).run es = some s) (hpc : s.pc f = .rLdLow hh l)
+    (hs : step s (.rBuf f i x) = some s') (hnone : ¬ (x ≠ 0 ∧ hh > l)) :
+    s.emptySeen = true ∨
+    (x = 0 ∧ s.low < s.high ∧ s.pc (qown s s.low) = .sClaimed (qval s s.low) s.low) :=
+  empty_bounded_of_inv (kind_of_run h).1 (binv_of_run h) (einv_of_run h) f i x hh l hpc hs hnone
+
+/-- state form (unbounded / sp): `head->next` is NULL only if every message linearised so far
+    has been received, or the node next in line is not linked yet and its sender is between
+    its tail swap and the write of `prev->next` -/
+theorem empty_at_read_queue (spin : Bool) (k : Kind) (hk : k ≠ .bounded) (cap : Nat) (es : List Ev) (s : St)
+    (h : (sysM spin k cap).run es = some s) (h0 : headNext s = 0) :
+    s.hd = s.sent.length ∨
+    (s.hd < s.sent.length ∧ s.linked s.hd = false ∧ (s.pc (qown s s.hd)).swappedAt s.hd = true) :=
+  empty_queue_of_inv (qinv_of_run hk h) (linv_of_run hk h) h0
 
 /-! non-vacuity: runs of the real implementation (harness/chan.c, script `r,r|s1,s2`, 2 kernel
     threads, VR_SCHED=rand VR_SWITCH=2 VR_SEED=3) for the three kinds, projected to model
@@ -550,6 +694,150 @@ example : ((sys .unbounded 0).run (traceUnbounded.take 12)).map
 example : ((sys .bounded 2).run (traceBounded.take 14)).map
       (fun s => (s.buf (s.low % s.cap), s.pc 17, s.p.pc 16, s.p.word))
     = some (1, .sPublished 1, .parked, .fiber 16) := by decide
+
+/-! non-vacuity with the new operations: more runs of the real implementation, projected.
+
+    `traceMixed` — `chan 2 b 1 't,r,t,d|s1,s2,s3'` (VR_SCHED=rand VR_SWITCH=2 VR_SEED=3), bounded
+    channel WITH a signal, capacity 2: a try_receive on the empty channel reports empty; the
+    blocking receive that follows goes to sleep and is woken by the first send; the third send
+    spins on the full ring; try_receives take messages 2 and 3, one more reports empty. -/
+def traceMixed : List Ev :=
+  [.callTry 16, .ldHigh 16 0, .ldLow 16 0, .rBuf 16 0 0, .retRecv 16 0, .callRecv 16, .ldHigh 16 0,
+   .ldLow 16 0, .rBuf 16 0 0, .callSend 17 1, .p (.clrScratch 16), .p (.casWaiter 16 .none true),
+   .p (.wStateWaiting 16), .ldLow 17 0, .ldHigh 17 0, .rBuf 17 0 0, .casHigh 17 0 0 1 true,
+   .wBuf 17 0 1, .p (.xchg 17 (.fiber 16)), .p (.stNone 17), .p (.rScratch 17 16 false),
+   .p (.setWait 1 16), .p (.rScratch 17 16 true), .p (.wStateReady 17 16), .woke 17 true,
+   .retSend 17, .callSend 17 2, .ldLow 17 0, .ldHigh 17 1, .rBuf 17 1 0, .casHigh 17 1 1 2 true,
+   .wBuf 17 1 2, .p (.xchg 17 .none), .woke 17 false, .retSend 17, .callSend 17 3, .ldLow 17 0,
+   .ldHigh 17 2, .rBuf 17 0 1, .ldLow 17 0, .ldHigh 17 2, .rBuf 17 0 1, .p (.clrScratch 16),
+   .p (.stNone 16), .ldHigh 16 2, .ldLow 16 0, .rBuf 16 0 1, .wBuf 16 0 0, .stLow 16 1,
+   .retRecv 16 1, .callTry 16, .ldHigh 16 2, .ldLow 16 1, .rBuf 16 1 2, .wBuf 16 1 0, .stLow 16 2,
+   .retRecv 16 2, .callTry 16, .ldHigh 16 2, .ldLow 16 2, .rBuf 16 0 0, .retRecv 16 0, .ldLow 17 2,
+   .ldHigh 17 2, .rBuf 17 0 0, .casHigh 17 2 2 3 true, .wBuf 17 0 3, .p (.xchg 17 .none),
+   .woke 17 false, .retSend 17, .callTry 16, .ldHigh 16 3, .ldLow 16 2, .rBuf 16 0 3, .wBuf 16 0 0,
+   .stLow 16 3, .retRecv 16 3]
+
+example : ((sys .bounded 2).run traceMixed).map (fun s => (s.recvd, s.tryEmpty, s.p.parks 16, s.p.wakes 16))
+    = some ([1, 2, 3], 2, 1, 1) := by decide
+
+/-- inside `traceMixed`: after 4 events the try_receive is about to report empty (`tEmpty`) and
+    it saw the channel empty (hypothesis of `try_empty_bounded`, first disjunct) -/
+example : ((sys .bounded 2).run (traceMixed.take 4)).map
+      (fun s => (s.pc 16, s.tryMode, s.emptySeen, s.sent.length, s.recvd.length))
+    = some (.tEmpty, true, true, 0, 0) := by decide
+
+/-- `traceInflightB` — `chan 2 b 1 't,t,d|s1'` (VR_SEED=23 VR_SWITCH=2): the sender has claimed
+    slot 0 (CAS on `high`) and not written it when the try_receive reads `high = 1 > low = 0`
+    and a NULL slot: it reports empty although the channel is NOT empty — the send is in flight
+    (second disjunct of `try_empty_bounded`); the next try_receive takes the message. -/
+def traceInflightB : List Ev :=
+  [.callSend 17 1, .ldLow 17 0, .ldHigh 17 0, .rBuf 17 0 0, .casHigh 17 0 0 1 true, .callTry 16,
+   .ldHigh 16 1, .ldLow 16 0, .rBuf 16 0 0, .retRecv 16 0, .callTry 16, .ldHigh 16 1, .wBuf 17 0 1,
+   .p (.xchg 17 .none), .ldLow 16 0, .woke 17 false, .retSend 17, .rBuf 16 0 1, .wBuf 16 0 0,
+   .stLow 16 1, .retRecv 16 1]
+
+example : ((sys .bounded 2).run (traceInflightB.take 9)).map
+      (fun s => (s.pc 16, s.emptySeen, s.sent.length, s.recvd.length, s.pc 17))
+    = some (.tEmpty, false, 1, 0, .sClaimed 1 0) := by decide
+
+example : ((sys .bounded 2).run traceInflightB).map (fun s => (s.recvd, s.tryEmpty)) = some ([1], 1) := by
+  decide
+
+/-- `traceSpinU` — `chan 2 U 0 't,t,d|s1'` (VR_SEED=7): unbounded channel created with a NULL
+    signal; the send never raises (`woke 17 false` straight after the link write); the first
+    try_receive reads `head->next = NULL` between the sender's tail swap and its link write
+    (in flight: second disjunct of `try_empty_queue`), the second one pops the message. -/
+def traceSpinU : List Ev :=
+  [.callSend 17 1, .wData 17 2 1, .wNext 17 2 0, .callTry 16, .rHead 16 1, .xchgTail 17 1 2,
+   .rNext 16 1 0, .retRecv 16 0, .callTry 16, .rHead 16 1, .wNext 17 1 2, .woke 17 false,
+   .retSend 17, .rNext 16 1 2, .wHead 16 2, .rData 16 2 1, .wData 16 1 1, .rData 16 1 1,
+   .retRecv 16 1]
+
+example : ((sysM true .unbounded 0).run (traceSpinU.take 7)).map
+      (fun s => (s.pc 16, s.sent.length, s.recvd.length, s.hd, s.pc 17))
+    = some (.tEmpty, 1, 0, 0, .qSwapped 1 1 0) := by decide
+
+example : ((sysM true .unbounded 0).run traceSpinU).map (fun s => (s.recvd, s.tryEmpty, s.p.word))
+    = some ([1], 1, .none) := by decide
+
+/-- the signal-mode model rejects that run (a send that does not raise), the spin-mode model
+    rejects a run of a channel with a signal: the two creation modes are told apart by validation -/
+example : ((sys .unbounded 0).run traceSpinU).isNone = true ∧
+    ((sysM true .unbounded 0).run traceUnbounded).isNone = true := by decide
+
+/-- `traceSpinS` — `chan 2 S 0 't,t,d|s1'` (VR_SEED=2): single-producer channel, NULL signal -/
+def traceSpinS : List Ev :=
+  [.callTry 16, .rHead 16 1, .rNext 16 1 0, .retRecv 16 0, .callTry 16, .rHead 16 1, .rNext 16 1 0,
+   .retRecv 16 0, .callTry 16, .rHead 16 1, .callSend 17 1, .wData 17 2 1, .wNext 17 2 0,
+   .ldTail 17 1, .stTail 17 2, .rNext 16 1 0, .retRecv 16 0, .wNext 17 1 2, .callTry 16,
+   .rHead 16 1, .woke 17 false, .retSend 17, .rNext 16 1 2, .wHead 16 2, .rData 16 2 1,
+   .wData 16 1 1, .rData 16 1 1, .retRecv 16 1]
+
+example : ((sysM true .sp 0).run traceSpinS).map (fun s => (s.recvd, s.tryEmpty, s.p.word))
+    = some ([1], 3, .none) := by decide
+
+/-- `traceSpinB` — `chan 2 B 1 'r,t,d|s1,s2,s3'` (VR_SEED=3): bounded channel, NULL signal: the
+    blocking receive finds nothing three times and loops (through fiber_yield, skipped by
+    projection) instead of sleeping, then takes message 1; try_receives take 2 and 3 and report
+    empty twice while the third send is between its claim and its write. -/
+def traceSpinB : List Ev :=
+  [.callRecv 16, .ldHigh 16 0, .ldLow 16 0, .rBuf 16 0 0, .ldHigh 16 0, .ldLow 16 0, .callSend 17 1,
+   .rBuf 16 0 0, .ldHigh 16 0, .ldLow 16 0, .ldLow 17 0, .rBuf 16 0 0, .ldHigh 17 0, .rBuf 17 0 0,
+   .casHigh 17 0 0 1 true, .wBuf 17 0 1, .woke 17 false, .retSend 17, .callSend 17 2, .ldLow 17 0,
+   .ldHigh 17 1, .rBuf 17 1 0, .casHigh 17 1 1 2 true, .ldHigh 16 2, .ldLow 16 0, .rBuf 16 0 1,
+   .wBuf 16 0 0, .stLow 16 1, .retRecv 16 1, .callTry 16, .wBuf 17 1 2, .woke 17 false, .retSend 17,
+   .callSend 17 3, .ldHigh 16 2, .ldLow 16 1, .ldLow 17 1, .rBuf 16 1 2, .wBuf 16 1 0, .ldHigh 17 2,
+   .rBuf 17 0 0, .casHigh 17 2 2 3 true, .stLow 16 2, .retRecv 16 2, .callTry 16, .ldHigh 16 3,
+   .ldLow 16 2, .rBuf 16 0 0, .retRecv 16 0, .callTry 16, .ldHigh 16 3, .ldLow 16 2, .rBuf 16 0 0,
+   .retRecv 16 0, .wBuf 17 0 3, .woke 17 false, .retSend 17, .callTry 16, .ldHigh 16 3, .ldLow 16 2,
+   .rBuf 16 0 3, .wBuf 16 0 0, .stLow 16 3, .retRecv 16 3]
+
+example : ((sysM true .bounded 2).run traceSpinB).map (fun s => (s.recvd, s.tryEmpty, s.p.word, s.p.parks 16))
+    = some ([1, 2, 3], 2, .none, 0) := by decide
+
+/-- inside `traceSpinB`: after 16 events the message is in its slot and the blocking receiver
+    is at the top of its loop — the hypotheses of `receive_takes_bounded` -/
+example : ((sysM true .bounded 2).run (traceSpinB.take 16)).map
+      (fun s => (s.pc 16, s.buf (s.low % s.cap), s.tryMode))
+    = some (.rTop, 1, false) := by decide
+
+/-- `traceBehind` — `chan 3 u 0 't,t,t,d|s1|s2'` (VR_SEED=3182 VR_SWITCH=2): sender 18 swaps the
+    tail first and stalls before its link write; sender 17 then sends message 1 COMPLETELY
+    (swap, link, raise, return); only then is try_receive called — and reports empty, because
+    the node next in line (18's) is not linked. -/
+def traceBehind : List Ev :=
+  [.callSend 18 2, .wData 18 3 2, .wNext 18 3 0, .xchgTail 18 1 3, .callSend 17 1, .wData 17 2 1,
+   .wNext 17 2 0, .xchgTail 17 3 2, .wNext 17 3 2, .p (.xchg 17 .none), .woke 17 false, .retSend 17,
+   .callTry 16, .rHead 16 1, .rNext 16 1 0, .retRecv 16 0, .callTry 16, .rHead 16 1, .wNext 18 1 3,
+   .rNext 16 1 3, .wHead 16 3, .p (.xchg 18 .raised), .woke 18 false, .retSend 18, .rData 16 3 2,
+   .wData 16 1 2, .rData 16 1 2, .retRecv 16 2, .callTry 16, .rHead 16 3, .rNext 16 3 2, .wHead 16 2,
+   .rData 16 2 1, .wData 16 3 1, .rData 16 3 1, .retRecv 16 1]
+
+/-- `try_empty_*` cannot be strengthened to "try_receive reports empty only if no COMPLETED send
+    is unreceived": in this accepted trace of the real code (`traceBehind`) fiber 17's send of
+    message 1 has returned (pc idle, message linearised, not received) before the try_receive
+    is even called, and throughout the call; the call nevertheless reports empty (`tEmpty`),
+    because the send of the message NEXT IN LINE (fiber 18's) is in flight. -/
+theorem try_empty_despite_completed_send :
+    ∃ es s, (sys .unbounded 0).run es = some s ∧ s.pc 16 = .tEmpty ∧
+      s.pc 17 = .idle ∧ (17, 1) ∈ s.sent ∧ 1 ∉ s.recvd ∧ s.pc 18 = .qSwapped 2 1 0 := by
+  refine ⟨traceBehind.take 15, ?_⟩
+  have key : ((sys .unbounded 0).run (traceBehind.take 15)).map
+      (fun s => (s.pc 16, s.pc 17, s.pc 18)) = some (.tEmpty, .idle, .qSwapped 2 1 0) := by decide
+  have key2 : ((sys .unbounded 0).run (traceBehind.take 15)).map
+      (fun s => (s.sent, s.recvd)) = some ([(18, 2), (17, 1)], []) := by decide
+  cases hr : (sys .unbounded 0).run (traceBehind.take 15) with
+  | none => rw [hr] at key; simp at key
+  | some s =>
+    rw [hr] at key key2
+    simp only [Option.map_some, Option.some.injEq, Prod.mk.injEq] at key key2
+    obtain ⟨k1, k2, k5⟩ := key
+    obtain ⟨k3, k4⟩ := key2
+    exact ⟨s, rfl, k1, k2, by rw [k3]; simp, by rw [k4]; simp, k5⟩
+
+/-- the whole run delivers everything exactly once, in linearisation order (2 before 1) -/
+example : ((sys .unbounded 0).run traceBehind).map (fun s => (s.recvd, s.tryEmpty)) = some ([2, 1], 1) := by
+  decide
 
 end Chan
 
